@@ -95,6 +95,34 @@ func c10Drive(stream []byte, mode int) (res c10Result) {
 	return
 }
 
+// c10SpinPattern: two uvarint continuation bytes followed by a non-zero byte, i.e. a place where
+// a uvarint >= 2^14 could be decoded.
+func c10SpinPattern(b []byte) bool {
+	for i := 0; i+2 < len(b); i++ {
+		if b[i] >= 0x80 && b[i+1] >= 0x80 && b[i+2] != 0 {
+			return true
+		}
+	}
+	return false
+}
+
+// c10SpinGuard reports whether the body of payload must not be handed to kmsg: franz-go kmsg
+// v1.12.0 internalReadTags iterates `count` times (up to 2^32-1, minutes of CPU) even after its
+// reader is exhausted, so a flexible body in which a large uvarint can be decoded as a tag
+// count would stall the enumeration. The real ParseRequestHeader is still executed here.
+func c10SpinGuard(payload []byte) (skip bool) {
+	defer func() {
+		if recover() != nil {
+			skip = false // let the full drive hit and classify the panic
+		}
+	}()
+	hdr, body, err := ParseRequestHeader(payload)
+	if err != nil || !c10IsFlexible(hdr.APIKey, hdr.APIVersion) {
+		return false
+	}
+	return c10SpinPattern(body)
+}
+
 // c10ClassifyPanic must be called from a deferred function while panicking. The key names
 // the panic class and the two innermost non-runtime functions (mechanism, stable across runs).
 func c10ClassifyPanic(p any) (string, string) {
@@ -173,11 +201,23 @@ type c10Agg struct {
 
 func newC10Agg() *c10Agg { return &c10Agg{count: map[string]int64{}, ex: map[string][]c10Viol{}} }
 
-func (a *c10Agg) add(v c10Viol) {
+// add counts one violation; mk builds the (expensive) detail and replay only when the case is
+// among the three smallest (stream length, then ordinal) seen for its key.
+func (a *c10Agg) add(key string, ord int64, stream []byte, mk func() c10Viol) {
 	a.mu.Lock()
 	defer a.mu.Unlock()
-	a.count[v.Key]++
-	l := append(a.ex[v.Key], v)
+	a.count[key]++
+	l := a.ex[key]
+	if len(l) == 3 {
+		w := l[2]
+		if len(stream) > len(w.Stream) || (len(stream) == len(w.Stream) && ord >= w.Ord) {
+			return
+		}
+	}
+	v := mk()
+	v.Key, v.Ord = key, ord
+	v.Stream = append([]byte{}, stream...)
+	l = append(l, v)
 	sort.SliceStable(l, func(i, j int) bool {
 		if len(l[i].Stream) != len(l[j].Stream) {
 			return len(l[i].Stream) < len(l[j].Stream)
@@ -187,7 +227,7 @@ func (a *c10Agg) add(v c10Viol) {
 	if len(l) > 3 {
 		l = l[:3]
 	}
-	a.ex[v.Key] = l
+	a.ex[key] = l
 }
 
 // ---- outcome signatures ----
@@ -416,11 +456,22 @@ func TestVerifC10(t *testing.T) {
 	var ord int64 // deterministic case ordinals are assigned per phase block
 	corpus := &c10Corpus{}
 
-	c10PhaseHeaders(rep, agg, ranges, thorough, deadline, &ord, corpus)
-	c10PhaseFrames(rep, agg, &ord, corpus)
-	c10PhaseMutations(t, rep, agg, pairs, thorough, deadline, &ord)
-	c10PhaseRoundTrip(t, rep, agg, pairs, thorough, deadline, &ord)
-	conn := c10PhaseServer(t, rep, agg, corpus)
+	walls := map[string]float64{}
+	timed := func(name string, f func()) {
+		t0 := time.Now()
+		f()
+		walls[name] = float64(int(time.Since(t0).Seconds()*10)) / 10
+	}
+	waitHuge := c10HugeStart(rep, agg, &ord)
+	// the round trip and the cheap phases first, so a deadline can only cut the big products
+	timed("D_roundtrip", func() { c10PhaseRoundTrip(t, rep, agg, pairs, thorough, deadline, &ord) })
+	timed("B_frames", func() { c10PhaseFrames(rep, agg, &ord, corpus) })
+	timed("A_headers", func() { c10PhaseHeaders(rep, agg, ranges, thorough, deadline, &ord, corpus) })
+	timed("C_mutations", func() { c10PhaseMutations(t, rep, agg, pairs, thorough, deadline, &ord) })
+	timed("B2_huge_frames_wait", waitHuge)
+	var conn map[string]string
+	timed("S_server", func() { conn = c10PhaseServer(t, rep, agg, corpus) })
+	rep.SetInfo("phase_wall_s", walls)
 	c10Emit(rep, agg, conn)
 }
 
@@ -489,7 +540,7 @@ func c10PhaseHeaders(rep *vh.Report, agg *c10Agg, ranges map[int16][2]int16, tho
 			for ki := range jobs {
 				k := keys[ki]
 				var local []c10CorpusEntry
-				var evals int64
+				var evals, skipped int64
 				o := base + perKey*int64(ki)
 				for _, ver := range k.Versions {
 					if time.Now().After(deadline) {
@@ -510,9 +561,13 @@ func c10PhaseHeaders(rep *vh.Report, agg *c10Agg, ranges map[int16][2]int16, tho
 							for tr := len(payload); tr >= 0; tr-- {
 								binary.BigEndian.PutUint32(buf, uint32(tr))
 								stream := buf[:4+tr]
+								o++
+								if c10SpinGuard(stream[4:]) {
+									skipped++
+									continue
+								}
 								res := c10Drive(stream, 0)
 								evals++
-								o++
 								out := c10OutcomeOf(&res)
 								nontriv := tr >= 8
 								sig := "A|" + k.Class + "|flex=" + fmt.Sprint(flex) + "|" + out
@@ -522,10 +577,11 @@ func c10PhaseHeaders(rep *vh.Report, agg *c10Agg, ranges map[int16][2]int16, tho
 									sampleMu.Unlock()
 								}
 								if res.PanicKey != "" {
-									s := append([]byte{}, stream...)
-									agg.add(c10Viol{Ord: o, Key: res.PanicKey, Stream: s,
-										Detail:  fmt.Sprintf("ParseRequest panicked (%s) on header key=%d version=%d flexible=%v %s %s truncated_to=%d/%d", res.PanicMsg, k.Key, ver, flex, cdescs[ci], sdescs[si], tr, len(payload)),
-										Replay: c10Replay{Kind: "bytes", StreamHex: hex.EncodeToString(s), Desc: fmt.Sprintf("key=%d v=%d %s %s", k.Key, ver, cdescs[ci], sdescs[si])}})
+									agg.add(res.PanicKey, o, stream, func() c10Viol {
+										return c10Viol{
+											Detail: fmt.Sprintf("ParseRequest panicked (%s) on header key=%d version=%d flexible=%v %s %s truncated_to=%d/%d", res.PanicMsg, k.Key, ver, flex, cdescs[ci], sdescs[si], tr, len(payload)),
+											Replay: c10Replay{Kind: "bytes", StreamHex: hex.EncodeToString(stream), Desc: fmt.Sprintf("key=%d v=%d %s %s", k.Key, ver, cdescs[ci], sdescs[si])}}
+									})
 								}
 								if tr == len(payload) && c10CorpusKeys[k.Key] {
 									local = append(local, c10CorpusEntry{Ord: o, Stream: append([]byte{}, stream...), Panicked: res.PanicKey != ""})
@@ -536,6 +592,7 @@ func c10PhaseHeaders(rep *vh.Report, agg *c10Agg, ranges map[int16][2]int16, tho
 				}
 				rep.Eval(evals)
 				rep.Count("cases_header", evals)
+				rep.Count("spin_guard_header_only", skipped)
 				corpus.add(local)
 			}
 		}()
@@ -561,7 +618,7 @@ func c10PhaseFrames(rep *vh.Report, agg *c10Agg, ord *int64, corpus *c10Corpus) 
 	valid := fm.AppendRequest(nil, rq, 7)
 	p := valid[4:]
 	n := int64(len(p))
-	lengths := []int64{-1, -(1 << 31), 0, 1, n - 1, n, n + 1, 1 << 24, 1<<31 - 1}
+	lengths := []int64{-1, -(1 << 31), 0, 1, n - 1, n, n + 1, 1 << 16, 1 << 24}
 	bodies := [][]byte{nil, p[:1], p[:n-1], p, append(append([]byte{}, p...), 0, 0, 0, 9)}
 	modes := []int{0, -1, -2, 1, 2, 3, 4, 5, 6, 7, 8, 9, 10, 11, 12}
 	sigs := &c10Sigs{rep: rep, seen: map[string]bool{}}
@@ -579,9 +636,11 @@ func c10PhaseFrames(rep *vh.Report, agg *c10Agg, ord *int64, corpus *c10Corpus) 
 			rep.Sample(map[string]any{"phase": "B", "case": desc, "mode": mode, "stream_hex": hex.EncodeToString(stream), "outcome": out})
 		}
 		if res.PanicKey != "" {
-			agg.add(c10Viol{Ord: *ord, Key: res.PanicKey, Stream: stream,
-				Detail: fmt.Sprintf("ReadFrame/ParseRequest panicked (%s) on %s reader-mode=%d", res.PanicMsg, desc, mode),
-				Replay: c10Replay{Kind: "bytes", StreamHex: hex.EncodeToString(stream), Mode: mode, Desc: desc}})
+			agg.add(res.PanicKey, *ord, stream, func() c10Viol {
+				return c10Viol{
+					Detail: fmt.Sprintf("ReadFrame/ParseRequest panicked (%s) on %s reader-mode=%d", res.PanicMsg, desc, mode),
+					Replay: c10Replay{Kind: "bytes", StreamHex: hex.EncodeToString(stream), Mode: mode, Desc: desc}}
+			})
 		}
 		if mode == 0 && !big {
 			local = append(local, c10CorpusEntry{Ord: *ord, Stream: stream, Panicked: res.PanicKey != ""})
@@ -593,7 +652,7 @@ func c10PhaseFrames(rep *vh.Report, agg *c10Agg, ord *int64, corpus *c10Corpus) 
 		}
 	}
 	for _, l := range lengths {
-		big := l >= 1<<24
+		big := l >= 1<<16
 		for bi, body := range bodies {
 			stream := make([]byte, 4, 4+len(body))
 			binary.BigEndian.PutUint32(stream, uint32(int32(l)))
@@ -608,6 +667,71 @@ func c10PhaseFrames(rep *vh.Report, agg *c10Agg, ord *int64, corpus *c10Corpus) 
 		}
 	}
 	corpus.add(local)
+}
+
+// ---- phase B2: huge declared frame lengths, each in its own child process ----
+
+// c10HugeStart runs the frames whose declared length is 2^30 / 2^31-1 (ReadFrame allocates the
+// declared size before reading) one per child process of this test binary, so that a runtime
+// `fatal error: out of memory` is attributable and the allocations do not disturb this heap.
+func c10HugeStart(rep *vh.Report, agg *c10Agg, ord *int64) (wait func()) {
+	base := *ord
+	*ord += 16
+	done := make(chan struct{})
+	go func() {
+		defer close(done)
+		n := 0
+		for _, l := range []uint32{1 << 30, 1<<31 - 1} {
+			for _, body := range [][]byte{nil, {0, 18, 0, 3, 0, 0, 0, 7, 0xff, 0xff, 0, 1, 0x76, 2, 0x31, 0}} {
+				n++
+				stream := make([]byte, 4, 4+len(body))
+				binary.BigEndian.PutUint32(stream, l)
+				stream = append(stream, body...)
+				cmd := exec.Command(os.Args[0], "-test.run", "^TestVerifC10Huge$", "-test.count=1", "-test.timeout=120s")
+				cmd.Env = append(os.Environ(), "C10_HUGE_CASE="+hex.EncodeToString(stream), "VERIF_OUT=", "VERIF_REPLAY=")
+				out, err := cmd.CombinedOutput()
+				txt := string(out)
+				desc := fmt.Sprintf("declared frame length %d with %d payload bytes then EOF", l, len(body))
+				outcome := ""
+				if i := strings.Index(txt, "C10HUGE "); i >= 0 {
+					outcome = strings.SplitN(txt[i+8:], "\n", 2)[0]
+				}
+				rep.Eval(1)
+				rep.Count("cases_frame_huge", 1)
+				switch {
+				case err == nil && outcome != "" && !strings.HasPrefix(outcome, "panic:"):
+					rep.Outcome("B2|"+fmt.Sprint(l)+"|"+outcome, true)
+				case strings.HasPrefix(outcome, "panic:"):
+					agg.add(outcome, base+int64(n), stream, func() c10Viol {
+						return c10Viol{Detail: "ReadFrame panicked on " + desc, Replay: c10Replay{Kind: "bytes", StreamHex: hex.EncodeToString(stream), Desc: desc}}
+					})
+				case strings.Contains(txt, "fatal error:"):
+					i := strings.Index(txt, "fatal error:")
+					line := strings.SplitN(txt[i:], "\n", 2)[0]
+					agg.add("fatal:"+strings.ReplaceAll(strings.TrimPrefix(line, "fatal error: "), " ", "-")+"@ReadFrame", base+int64(n), stream, func() c10Viol {
+						return c10Viol{Detail: "process died (" + line + ") on " + desc, Replay: c10Replay{Kind: "bytes", StreamHex: hex.EncodeToString(stream), Desc: desc}}
+					})
+				default:
+					rep.Cap("huge-frame child did not finish: " + desc)
+				}
+			}
+		}
+	}()
+	return func() { <-done }
+}
+
+// TestVerifC10Huge is the child side of c10HugeStart.
+func TestVerifC10Huge(t *testing.T) {
+	h := os.Getenv("C10_HUGE_CASE")
+	if h == "" {
+		t.Skip("worker of TestVerifC10")
+	}
+	stream, err := hex.DecodeString(h)
+	if err != nil {
+		t.Fatalf("HARNESS-ERROR %v", err)
+	}
+	res := c10Drive(stream, 0)
+	fmt.Printf("C10HUGE %s\n", c10OutcomeOf(&res))
 }
 
 // ---- phase C: substitutions in valid encoded requests ----
@@ -647,9 +771,13 @@ func c10PhaseMutations(t *testing.T, rep *vh.Report, agg *c10Agg, pairs []c10KV,
 			for pi := range jobs {
 				kv := pairs[pi]
 				o := base + perPair*int64(pi)
-				var evals int64
+				var evals, skipped int64
 				flex := c10IsFlexible(kv.Key, kv.Version)
-				for _, variant := range variants {
+				vs := variants
+				if flex && !thorough {
+					vs = []int{0, 1} // variants without >=0x80 bytes: not masked by the spin guard
+				}
+				for _, variant := range vs {
 					if time.Now().After(deadline) {
 						capped.Store(true)
 						break
@@ -661,22 +789,28 @@ func c10PhaseMutations(t *testing.T, rep *vh.Report, agg *c10Agg, pairs []c10KV,
 					}
 					valid := kmsg.NewRequestFormatter(kmsg.FormatterClientID("cid")).AppendRequest(nil, rq, 0x0a0b0c0d)
 					payload := valid[4:]
-					try := func(mut []byte, desc string) {
+					try := func(mut []byte, desc func() string) {
 						o++
+						if c10SpinGuard(mut) {
+							skipped++
+							return
+						}
 						evals++
 						stream := c10Frame(mut)
 						res := c10Drive(stream, 0)
 						out := c10OutcomeOf(&res)
 						sigs.add(fmt.Sprintf("C|flex=%v|%s", flex, out), len(mut) >= 8)
 						if res.PanicKey != "" {
-							agg.add(c10Viol{Ord: o, Key: res.PanicKey, Stream: stream,
-								Detail: fmt.Sprintf("ParseRequest panicked (%s) on %s v%d (variant %d) with %s", res.PanicMsg, kmsg.NameForKey(kv.Key), kv.Version, variant, desc),
-								Replay: c10Replay{Kind: "bytes", StreamHex: hex.EncodeToString(stream), Desc: desc}})
+							agg.add(res.PanicKey, o, stream, func() c10Viol {
+								return c10Viol{
+									Detail: fmt.Sprintf("ParseRequest panicked (%s) on %s v%d (variant %d) with %s", res.PanicMsg, kmsg.NameForKey(kv.Key), kv.Version, variant, desc()),
+									Replay: c10Replay{Kind: "bytes", StreamHex: hex.EncodeToString(stream), Desc: desc()}}
+							})
 						}
 					}
-					try(payload, "unmodified")
+					try(payload, func() string { return "unmodified" })
 					for cut := 0; cut < len(payload); cut++ {
-						try(payload[:cut], fmt.Sprintf("truncation to %d of %d bytes", cut, len(payload)))
+						try(payload[:cut], func() string { return fmt.Sprintf("truncation to %d of %d bytes", cut, len(payload)) })
 					}
 					mut := make([]byte, len(payload), len(payload)+16)
 					for off := 0; off < len(payload); off++ {
@@ -686,7 +820,7 @@ func c10PhaseMutations(t *testing.T, rep *vh.Report, agg *c10Agg, pairs []c10KV,
 							}
 							copy(mut, payload)
 							mut[off] = bv
-							try(mut, fmt.Sprintf("byte %d set to 0x%02x", off, bv))
+							try(mut, func() string { return fmt.Sprintf("byte %d set to 0x%02x", off, bv) })
 						}
 						for _, mv := range multi {
 							if len(mv) <= 4 { // overwrite
@@ -695,16 +829,17 @@ func c10PhaseMutations(t *testing.T, rep *vh.Report, agg *c10Agg, pairs []c10KV,
 								}
 								copy(mut, payload)
 								copy(mut[off:], mv)
-								try(mut, fmt.Sprintf("bytes %d.. overwritten with %x", off, mv))
+								try(mut, func() string { return fmt.Sprintf("bytes %d.. overwritten with %x", off, mv) })
 							} else { // varint inserted in place of one byte
 								ins := append(append(append([]byte{}, payload[:off]...), mv...), payload[off+1:]...)
-								try(ins, fmt.Sprintf("byte %d replaced by varint %x", off, mv))
+								try(ins, func() string { return fmt.Sprintf("byte %d replaced by varint %x", off, mv) })
 							}
 						}
 					}
 				}
 				rep.Eval(evals)
 				rep.Count("cases_mutation", evals)
+				rep.Count("spin_guard_header_only", skipped)
 			}
 		}()
 	}
@@ -884,8 +1019,10 @@ func c10PhaseRoundTrip(t *testing.T, rep *vh.Report, agg *c10Agg, pairs []c10KV,
 							th = c10StrPtr(hex.EncodeToString([]byte(*c.tags)))
 						}
 						g := c.gen
-						agg.add(c10Viol{Ord: o, Key: key, Detail: detail, Stream: frame,
-							Replay: c10Replay{Kind: "roundtrip", Key: kv.Key, Version: kv.Version, Gen: &g, Corr: c.corr, ClientID: c.clientID, TagsHex: th, Mode: c.mode, StreamHex: hex.EncodeToString(frame)}})
+						agg.add(key, o, frame, func() c10Viol {
+							return c10Viol{Detail: detail,
+								Replay: c10Replay{Kind: "roundtrip", Key: kv.Key, Version: kv.Version, Gen: &g, Corr: c.corr, ClientID: c.clientID, TagsHex: th, Mode: c.mode, StreamHex: hex.EncodeToString(frame)}}
+						})
 					}
 					return true
 				}
@@ -1029,9 +1166,11 @@ func c10PhaseServer(t *testing.T, rep *vh.Report, agg *c10Agg, corpus *c10Corpus
 			if len(parts) == 3 {
 				key, msg = parts[1], parts[2]
 			}
-			agg.add(c10Viol{Ord: e.Ord, Key: "server-" + key, Stream: e.Stream,
-				Detail: fmt.Sprintf("Server.handleConnection panicked (%s) on bytes that ReadFrame+ParseRequest handle without panic", msg),
-				Replay: c10Replay{Kind: "bytes", StreamHex: hex.EncodeToString(e.Stream), Desc: "server-level only"}})
+			agg.add("server-"+key, e.Ord, e.Stream, func() c10Viol {
+				return c10Viol{
+					Detail: fmt.Sprintf("Server.handleConnection panicked (%s) on bytes that ReadFrame+ParseRequest handle without panic", msg),
+					Replay: c10Replay{Kind: "bytes", StreamHex: hex.EncodeToString(e.Stream), Desc: "server-level only"}}
+			})
 		default:
 			both++
 		}
@@ -1055,7 +1194,9 @@ func c10RunReplay(t *testing.T, rep *vh.Report, agg *c10Agg, rp c10Replay) {
 		rep.Eval(1)
 		rep.Outcome("replay|"+c10OutcomeOf(&res), true)
 		if res.PanicKey != "" {
-			agg.add(c10Viol{Key: res.PanicKey, Stream: stream, Detail: "replay: panic (" + res.PanicMsg + ") " + rp.Desc, Replay: rp})
+			agg.add(res.PanicKey, 0, stream, func() c10Viol {
+				return c10Viol{Detail: "replay: panic (" + res.PanicMsg + ") " + rp.Desc, Replay: rp}
+			})
 		}
 	case "roundtrip":
 		c := c10RT{kv: c10KV{rp.Key, rp.Version}, corr: rp.Corr, clientID: rp.ClientID, mode: rp.Mode}
@@ -1076,7 +1217,7 @@ func c10RunReplay(t *testing.T, rep *vh.Report, agg *c10Agg, rp c10Replay) {
 		rep.Eval(1)
 		rep.Outcome("replay|"+sig, true)
 		if key != "" {
-			agg.add(c10Viol{Key: key, Stream: frame, Detail: "replay: " + detail, Replay: rp})
+			agg.add(key, 0, frame, func() c10Viol { return c10Viol{Detail: "replay: " + detail, Replay: rp} })
 		}
 	default:
 		t.Fatalf("HARNESS-ERROR unknown replay kind %q", rp.Kind)
